@@ -19,9 +19,13 @@ def run(pid, tier, seed, replay=None):
     extra = ()
     if pid == "C20":
         # the synchronous public API above the Writer (DataWriter::wait_for_acknowledgments): full command queue,
-        # time-out, acknowledgment before the time-out, a wait replaced by a second one, no reader
+        # time-out, acknowledgment before the time-out, a wait replaced by a second one, no reader;
+        # the asynchronous public API (DataWriter::async_wait_for_acknowledgments) under every interleaving with the
+        # Writer: Wakeup.tla scenario "awaitq" (command queue full / nearly full / empty at the first poll, a reliable
+        # reader that acknowledges only after the queue was worked off, or none)
+        aq = [(f"MC_Wakeup_awaitq_{s}.cfg", 4) for s in ("full", "full_nr", "r2", "r0", "r15")]
         extra = (dict(driver="sched", model="Wakeup.tla", trace_module="Trace_Wakeup.tla", trace_cfg="Trace_Wakeup.cfg",
-                      tiers={"quick": dict(mc=[], random=dict(runs=10, events=1)), "thorough": dict(mc=[], random=dict(runs=40, events=1))},
+                      tiers={"quick": dict(mc=aq, random=dict(runs=10, events=1)), "thorough": dict(mc=aq, random=dict(runs=40, events=1))},
                       random_mode="syncwait"),)
     return run_pipeline(pid, tier, seed, replay, driver="writer", model="RtpsWriter.tla",
                         trace_module="Trace_RtpsWriter.tla", trace_cfg="Trace_RtpsWriter.cfg",
